@@ -1,5 +1,7 @@
 """C04 - the best point ever evaluated is never lost."""
 import math
+import numpy as np
+from hypothesis import strategies as st
 from ..core import CaseResult, Profile
 from .. import scenario as sc, clauses as cl
 
@@ -15,7 +17,90 @@ ASSUMPTIONS = ["comparison allows 4 eps relative (the solver sums squares with n
                "runs with a non-finite recorded objective are left to C08"]
 
 PROF = sc.make_prof(fams=["lin", "sinlin", "rosen", "hashed", "hashed", "boxdomain"], avg=False, noise=False, reg=0.15,
-                    diag=0.1, opts_list=[0, 0, 0, 0, 0, 1, 2, 2, 2, 3, 4, 5, 6, 7, 9, 12, 13], regression_bias=0.08)
+                    diag=0.1, opts_list=[0, 0, 0, 0, 0, 1, 2, 2, 2, 3, 4, 5, 6, 7, 9, 12, 13], regression_bias=0.08, proj=0.08)
+
+
+@st.composite
+def cases(draw):
+    c = draw(sc.scenarios(PROF))
+    if draw(st.integers(0, 5)) == 0 and c["fam"] != "boxdomain" and not c.get("proj"):
+        # the objective is undefined (NaN) beyond a hyperplane 0.5 .. 10 rhobeg away from the (projected) starting point
+        n = c["n"]
+        lo, up = sc.user_bounds(c)
+        x0 = np.minimum(np.maximum(np.array(c["x0"], dtype=float), lo), up)
+        a = np.array([draw(sc.g8) for _ in range(n)])
+        if not np.any(a):
+            a[0] = 1.0
+        rb = c["rhobeg"] if c["rhobeg"] is not None else (0.1 if c["scaling"] else 0.1 * max(float(np.max(np.abs(x0))), 1.0))
+        if c["scaling"]:
+            rb = rb * float(np.min(up - lo))
+        c["nan_half"] = {"a": a.tolist(), "beta": float(a.dot(x0) + draw(st.sampled_from([0.5, 2.0, 10.0])) * rb * np.linalg.norm(a))}
+        c["tags"] = sorted(set(c["tags"] + ["nan-region"]))
+        if draw(st.integers(0, 2)) > 0 and n >= 2 and not c.get("reg") and not c["up"].get("growing.ndirs_initial"):
+            # soft restarts that append randomly directed points: some of them land in the undefined region
+            c["up"]["restarts.use_restarts"] = True
+            c["up"].pop("restarts.use_soft_restarts", None)
+            c["up"]["restarts.increase_npt"] = True
+            c["up"]["restarts.max_npt"] = (n + 1) * (n + 2) // 2
+            c["up"].pop("init.run_in_parallel", None)
+            c["rhoend"] = rb_eff(c) * 10.0 ** -draw(st.sampled_from([1, 1, 2]))
+            c["maxfun"] = draw(st.sampled_from([40, 80, 150]))
+            c["tags"] = sorted(set([t for t in c["tags"] if not t.startswith("restarts:")] + ["restarts:soft", "increase_npt", "nan-region-restarts"]))
+    return c
+
+
+def rb_eff(c):
+    return c["rhobeg"] if c["rhobeg"] is not None else (0.1 if c["scaling"] else 0.1 * max(max(abs(v) for v in c["x0"]), 1.0))
+
+
+ENUM_PROF = sc.make_prof(fams=["lin", "sinlin", "rosen", "hashed", "hashed", "hinge"], avg=False, noise=False, reg=0.05, diag=0.0, proj=0.2,
+                         maxfuns=[12, 20, 30, 40], opts_list=[0, 0, 1, 2, 2, 3, 4, 5, 7, 12], regression_bias=0.08, print_progress=0.0,
+                         route_bias=0.0, rhoend_exps=[1, 1, 2, 3])
+
+
+@st.composite
+def enum_cases(draw):
+    """Budget enumeration: a scenario whose fault-free run makes nf evaluations is re-run with maxfun = 1, 2, ..., nf - every
+    place at which the budget can run out (inside the initial set, a geometry step, the evaluation of a trial point that is about
+    to be rejected, a soft or hard restart) is visited, exhaustively inside the scenario."""
+    c = draw(sc.scenarios(ENUM_PROF))
+    if c.get("proj"):
+        c["maxfun"] = min(c["maxfun"], 14)      # projection runs cost 0.1-1 s each (PGD over Dykstra)
+    c["enum_budgets"] = True
+    return c
+
+
+def run_enum(case):
+    res = CaseResult()
+    base = {k: v for k, v in case.items() if k != "enum_budgets"}
+    ref = sc.run_solve(base)
+    res.classes += case["tags"]
+    if ref.soln is None or not ref.calls:
+        res.count("reference-run-unusable")
+        return res
+    nf = len(ref.calls)
+    lost = 0
+    for k in range(1, nf + 1):
+        c2 = dict(base)
+        c2["maxfun"] = k
+        o = sc.run_solve(c2, iter_hook=cl.iteration_hook(c2, check_c03=False, check_c04=True))
+        sub = CaseResult()
+        for clause, detail in o.iter_fail:
+            sub.fail(clause, detail)
+        vals = cl.c04(c2, o, sub)
+        for clause, detail in sub.failures:
+            res.fail(clause, "[maxfun=%d of %d] %s" % (k, nf, detail))
+        if vals is not None and vals.index(min(vals)) < len(vals) - 1:
+            lost += 1
+        res.count("budget-runs")
+        if res.failures:
+            break
+    restarts = max(len(ref.main_calls) - 1, 0) + len(ref.soft_restarts)
+    if restarts:
+        res.classes.append("restarted")
+    res.nontrivial = bool(nf > base["npt"] + 2)
+    return res
+
 
 
 def run(case):
@@ -42,5 +127,6 @@ def run(case):
     return res
 
 
-PROFILES = {"solve": Profile("solve", lambda: sc.scenarios(PROF), run, quick=5000, thorough=120000, timeout=120)}
+PROFILES = {"solve": Profile("solve", cases, run, quick=5000, thorough=120000, timeout=120),
+            "budget-enum": Profile("budget-enum", enum_cases, run_enum, quick=160, thorough=6000, timeout=600)}
 KNOWN = {}
